@@ -227,6 +227,15 @@ def _case_discipline(ctx, fi):
                 continue
             n += 1
             lowered = 'lower' in {x.split('.')[-1] for x in flow.prov_calls(prov)}
+            if not lowered and f is pk:
+                # the helper's argument may have been lower-cased by the caller already
+                sites = [x for x in walk_local(fi.node) if isinstance(x, ast.Call) and dotted(x.func) == pk.node.name and x.args]
+                hit_params = flow.prov_params(prov) & params
+                idx = [pk.params().index(p_) for p_ in hit_params if p_ in pk.params()]
+                if sites and idx and all(
+                        i_ < len(x.args) and 'lower' in {y.split('.')[-1] for y in flow.prov_calls(flow.provenance(fi.node, x.args[i_]))}
+                        for x in sites for i_ in idx):
+                    lowered = True
             ctx.check(lowered, 'ORDER', f"{f.qualname.split('.')[-1]}: `{norm(c)[:50]}` sees a lower-cased key",
                       'subject derives from .lower()',
                       f"`{norm(c)[:70]}` compares the caller's key with lower-case text but the key has not been "
